@@ -372,6 +372,7 @@ func main() {
 		nSeq, seqBudget = 15000, 200
 	}
 	hsN, hsAll, hsSusp := 0, 0, 0
+	var suspTerms, suspHumans []string
 	for i := 0; i < nSeq; i++ {
 		obs, susp := hostSeq(rnd.Fork(), 5000+i, st)
 		hsAll += len(obs)
@@ -389,7 +390,13 @@ func main() {
 			if o.bad {
 				outT = "OutPanic"
 			}
-			terms = append(terms, fmt.Sprintf("(mkCase false [] [%s] [%s] %s)", outT, o.spec, nN(0)))
+			t := fmt.Sprintf("(mkCase false [] [%s] [%s] %s)", outT, o.spec, nN(0))
+			if susp {
+				// reported first: the realistic witness (natural leftovers) before the planted ones
+				suspTerms, suspHumans = append(suspTerms, t), append(suspHumans, o.human)
+				continue
+			}
+			terms = append(terms, t)
 			humans = append(humans, o.human)
 			hsN++
 		}
@@ -398,7 +405,7 @@ func main() {
 	st.Distribution["hostseq:sequences-suspicious"] = hsSusp
 	st.Count("hostseq:sequences")
 	st.Distribution["hostseq:sequences"] = nSeq
-	st.Distribution["hostseq:observations-evaluated"] = hsN
+	st.Distribution["hostseq:observations-evaluated"] = hsN + len(suspTerms)
 	nHist := len(terms) - hsN
 	// concurrent mixes: specification only
 	debug.SetGCPercent(100)
@@ -432,6 +439,9 @@ func main() {
 	}
 	// interleave expensive (histories) and cheap (concurrent observations) cases so shards are balanced
 	// (host-sequence observations are cheap too: they sit after the histories)
+	for i := range suspTerms {
+		cs.Add(suspTerms[i], suspHumans[i])
+	}
 	ia, ib := 0, nHist
 	nb := len(terms) - nHist
 	for ia < nHist || ib < len(terms) {
